@@ -157,18 +157,18 @@ def register_executor(reg):
   TO = 'test_record.Outcome'
   c.ensures('finalized', '%s._status is test_state.TestState.Status.COMPLETED' % ts)
   c.ensures('plugs_torn_down_whatever_the_outcome', 'len(%s.plug_manager._plugs_by_type) == 0 and len(%s.plug_manager._plugs_by_name) == 0' % (ts, ts))
-  c.ensures('abort_wins', 'implies(old(self._abort.is_set()), %s is %s.ABORTED)' % (out, TO))
+  c.ensures('abort_wins', 'implies(self._abort.is_set(), %s is %s.ABORTED)' % (out, TO))
   c.ensures('terminal_outcome_never_passes',
-            'implies(not old(self._abort.is_set()) and %s, %s is not %s.PASS and %s is not %s.ABORTED)' % (term, out, TO, out, TO))
-  c.ensures('timeout', 'implies(not old(self._abort.is_set()) and %s and self._last_outcome.phase_result is None, %s is %s.TIMEOUT)' % (term, out, TO))
-  c.ensures('stop', 'implies(not old(self._abort.is_set()) and %s and self._last_outcome.phase_result is phase_descriptor.PhaseResult.STOP, %s is %s.FAIL)' % (term, out, TO))
+            'implies(not self._abort.is_set() and %s, %s is not %s.PASS and %s is not %s.ABORTED)' % (term, out, TO, out, TO))
+  c.ensures('timeout', 'implies(not self._abort.is_set() and %s and self._last_outcome.phase_result is None, %s is %s.TIMEOUT)' % (term, out, TO))
+  c.ensures('stop', 'implies(not self._abort.is_set() and %s and self._last_outcome.phase_result is phase_descriptor.PhaseResult.STOP, %s is %s.FAIL)' % (term, out, TO))
   any_fail = 'any(p.outcome is test_record.PhaseOutcome.FAIL for p in %s.test_record.phases)' % ts
   all_skip = 'all(p.outcome is test_record.PhaseOutcome.SKIP for p in %s.test_record.phases)' % ts
   fail_diag = 'any(d.is_failure for d in %s.test_record.diagnoses)' % ts
   fail_sub = 'any(s.outcome is test_record.SubtestOutcome.FAIL for s in %s.test_record.subtests)' % ts
   c.ensures('pass_only_by_aggregation',
-            'implies(%s is %s.PASS, not old(self._abort.is_set()) and not (%s) and (len(%s.test_record.phases) == 0 or '
+            'implies(%s is %s.PASS, not self._abort.is_set() and not (%s) and (len(%s.test_record.phases) == 0 or '
             '(not %s and not %s and not %s and not %s)))' % (out, TO, term, ts, any_fail, all_skip, fail_diag, fail_sub))
   c.modifies('TestState._status', 'TestRecord.outcome', 'TestRecord.start_time_millis', 'TestRecord.end_time_millis',
              'TestRecord.marginal', 'list(self.test_state.test_record.outcome_details)',
-             'PlugManager._plugs_by_type', 'PlugManager._plugs_by_name', 'dict', 'threading.Thread.alive', '_PlugTearDownThread._plug')
+             'PlugManager._plugs_by_type', 'PlugManager._plugs_by_name', 'dict', 'threading.Thread.alive', '_PlugTearDownThread._plug', 'event.flag')
